@@ -1,4 +1,4 @@
-import Goyang.Lemmas.IncludeMod
+import Goyang.Lemmas.IncludeModN
 import Goyang.Lemmas.IncludeNoAug
 /-
 C13 (third sentence), part 5: the conversion stage of `processAll` (`tstate`, `forest0`) on the
@@ -7,7 +7,7 @@ unsplit and on the split registry.
 namespace Goyang.Lemmas.IncludeConv
 open Goyang.Model Goyang.Spec.Include Goyang.Lemmas.Tree Goyang.Spec.Tree Goyang.Lemmas.IncludeRel
 open Goyang.Lemmas.IncludePure Goyang.Lemmas.IncludeRun Goyang.Lemmas.IncludeAsm Goyang.Lemmas.IncludeWorld
-open Goyang.Lemmas.IncludeMod
+open Goyang.Lemmas.IncludeMod Goyang.Lemmas.IncludeModN
 
 /-! ### a cached (sub)module -/
 
@@ -194,23 +194,42 @@ end Keys
 
 /-! ### the split registry -/
 
+theorem length_le_total (l : List Mod) (a : Nat) : a + l.length ≤ l.foldl (fun a m => a + stmtCount m.stmt) a := by
+  induction l generalizing a with
+  | nil => exact Nat.le_refl _
+  | cons x xs ih =>
+    simp only [List.foldl_cons, List.length_cons]
+    have h1 : 1 ≤ stmtCount x.stmt := by cases x.stmt; simp [stmtCount]
+    have := ih (a + stmtCount x.stmt)
+    omega
+
+theorem unstarted_lt_entryFuel {s : Split} {R R' : Registry} (hr : RegsOK s R R') : unstarted s [] < entryFuel R' := by
+  have h1 : unstarted s [] ≤ s.subs.length := List.length_filter_le _ _
+  have h2 : s.subs.length ≤ R'.mods.length := by rw [hr.mods']; simp
+  have h3 := length_le_total R'.mods 0
+  have h4 := Fuel.entryFuel_eq R'
+  have h5 : Fuel.totalStmts R' = R'.mods.foldl (fun a m => a + stmtCount m.stmt) 0 := rfl
+  have h6 : Fuel.totalStmts R' + 2 ≤ (Fuel.totalStmts R' + 2) * (Fuel.totalStmts R' + 2) := Nat.le_mul_self _
+  omega
+
 section SplitConv
 variable {s : Split} {R R' : Registry} (opts : Opts) (plug : Plug)
   (ht : TextOK s) (hr : RegsOK s R R') (hl : LinkOK s R (linkAll R).1 (linkAll R').1)
   (hW : (Ws s R R' opts plug).OK)
 
 /-- What the module cache of the split conversion holds. -/
-def SCache (s : Split) (R : Registry) (opts : Opts) (plug : Plug) (p : Nat × Entry) : Prop :=
+def SCache (s : Split) (R R' : Registry) (opts : Opts) (plug : Plug) (p : Nat × Entry) : Prop :=
   (∃ x ∈ mkeysOf R, x.seq ≠ s.m.seq ∧ x.seq = p.1 ∧ REb s.σ p.2 (pmodOf R opts plug x)) ∨
-  (p.1 = s.owner.seq ∧ REb s.σ p.2 (powner (envOf R opts plug) (vm s R opts plug) s.m s.owner.stmt (s.subs.map (·.stmt)))) ∨
-  (∃ sb ∈ s.subs, p.1 = sb.seq ∧ REb s.σ p.2 (pmod (envOf R opts plug) (vm s R opts plug) s.m sb.stmt))
+  (p.1 = s.owner.seq ∧ REb s.σ p.2 (pp s R R' opts plug (entryFuel R') [] s.owner.stmt).1) ∨
+  PureOf s R R' opts plug p
 
 structure SInv (s : Split) (R R' : Registry) (opts : Opts) (plug : Plug) (done : List Mod) (st : TState) : Prop where
   coh : Coh (Ws s R R' opts plug) st.gcache
-  cache : ∀ p ∈ st.cache, SCache s R opts plug p
+  cache : ∀ p ∈ st.cache, SCache s R R' opts plug p
   cached : ∀ X ∈ done, ∃ e, (X.seq, e) ∈ st.cache
   pre : (∀ p ∈ st.cache, p.1 ≠ s.owner.seq) → st.merged = [] ∧ ∀ p ∈ st.cache, ∀ sb ∈ s.subs, p.1 ≠ sb.seq
-  post : (∃ p ∈ st.cache, p.1 = s.owner.seq) → ∀ sb ∈ s.subs, ∃ e, (sb.seq, e) ∈ st.cache
+  post : (∃ p ∈ st.cache, p.1 = s.owner.seq) → ∀ sb ∈ s.subs,
+    (pp s R R' opts plug (entryFuel R') [] s.owner.stmt).2.contains sb.name = true → ∃ e, (sb.seq, e) ∈ st.cache
 
 include ht hr hl hW in
 /-- The conversion of the modules of the split registry, in key order. -/
@@ -261,17 +280,27 @@ theorem conv_split_mods :
       subst hxm'
       rw [IncludeLink.repl_m] at hfind hnone hX' hdone ⊢
       obtain ⟨hmerged, hnosub⟩ := hinv.pre hnone
-      have oc := owner_conv opts plug ht hr hl hW f st hnosub hmerged hfind hinv.coh
+      have hpinv : PInv s R R' opts plug st [] :=
+        ⟨hinv.coh, fun sb _ => (by rw [hmerged]; rfl), fun k hk => (by rw [hmerged] at hk; cases hk),
+          fun p hp sb hsb he => absurd he (hnosub p hp sb hsb), fun n hn => (by cases hn)⟩
+      have hown : s.owner ∉ s.subs := fun h => sub_seq_ne_owner hr h rfl
+      have G := part_conv opts plug ht hr hl hW f s.owner (List.mem_cons_self ..) [] st [] hpinv
+        (fun h => absurd h hown) (onlyMods_nil _) (fun _ _ h => by simp at h) (by simp) hfind
         (by rw [← hf]; exact top_need R' opts plug s.owner hX')
-      obtain ⟨o1, o2, o3, o4, o5, o6⟩ := oc
-      refine ⟨o2, ?_, hdone _ o6 ⟨_, o4⟩, ?_, fun _ => o5⟩
+        (by rw [← hf]; exact unstarted_lt_entryFuel hr)
+      refine ⟨G.inv.coh, ?_, hdone _ G.grows ⟨_, G.self⟩, ?_, ?_⟩
       · intro p hp
-        rcases o3 p hp with h | h | h
+        rcases G.cache p hp with h | h | h
         · exact hinv.cache p h
-        · rw [h]; exact Or.inr (Or.inl ⟨rfl, o1⟩)
+        · rw [h]; exact Or.inr (Or.inl ⟨rfl, by rw [hf]; exact G.re⟩)
         · exact Or.inr (Or.inr h)
       · intro hno
-        exact absurd rfl (hno _ o4)
+        exact absurd rfl (hno _ G.self)
+      · intro _ sb hsb hc
+        rw [hf] at hc
+        rcases G.newc sb hsb hc with h | h
+        · simp at h
+        · exact h
     · -- another module
       rw [IncludeLink.repl_of_ne hxm] at hfind hnone hX' hdone ⊢
       have hcr : (Ws s R R' opts plug).CR x [x.stmt] x [x.stmt] := Or.inr ⟨hx, hxm, rfl, rfl⟩
@@ -312,8 +341,8 @@ theorem conv_split_mods :
           · simp only [List.mem_singleton] at hp
             subst hp
             exact absurd (hpo.trans hr.owner_seq) hxm
-        intro sb hsb
-        obtain ⟨e, he⟩ := hinv.post ⟨p, hp', hpo⟩ sb hsb
+        intro sb hsb hc
+        obtain ⟨e, he⟩ := hinv.post ⟨p, hp', hpo⟩ sb hsb hc
         exact ⟨e, by rw [m3]; exact List.mem_append_left _ he⟩
 
 
